@@ -143,5 +143,5 @@ def make_theta(rng, n, batch, scale, pattern, min_norm):
         t = np.abs(rng.normal(size=shape)) * scale * rng.choice([-1.0, 1.0], size=shape)
     if min_norm:
         nr = np.linalg.norm(t, axis=-1, keepdims=True)
-        t = np.where(nr < 1e-3, t + 1e-2, t)
+        t = np.where(nr < 1e-3 * min(1.0, scale), t + 1e-2 * min(1.0, scale), t)  # relative to the scale: tiny non-zero vectors are inside the domain
     return t
